@@ -326,7 +326,9 @@ def make_units(prop, tier, only=None):
         import random
         rnd = random.Random(common.seed() * 7919 + len(units))
         for lit, pos in common.neighbourhoods(info, 2 if tier == 'quick' else 12, rnd):
-            u = {'prop': prop, 'module': modname, 'options': {}, 'L': len(lit), 'K': 2, 'literal': lit, 'positions': pos, 'is_valid_takes_options': True}
+            osets = option_sets(modname, info, tier)
+            o = osets[rnd.randrange(len(osets))]
+            u = {'prop': prop, 'module': modname, 'options': o, 'L': len(lit), 'K': 2, 'literal': lit, 'positions': pos, 'is_valid_takes_options': accepted_by(info, 'is_valid', o)}
             u.update(dict(max_paths=300, timeout=10, query_timeout_ms=5000) if tier == 'quick' else dict(max_paths=5000, timeout=120, query_timeout_ms=30000))
             units.append(u)
     return units
